@@ -1,4 +1,5 @@
 '''URL parsing based on WHATWG URL living standard.'''
+import codecs
 import collections
 import fnmatch
 import functools
@@ -701,6 +702,12 @@ _ASCII_TEXT = ''.join(chr(code) for code in range(128))
 def is_ascii_compatible_encoding(encoding):
     '''Return whether the codec encodes every ASCII character as itself.'''
     try:
+        if codecs.lookup(encoding).name.startswith('iso2022'):
+            # 7-bit and stateful: ASCII text is encoded as itself, but any
+            # other character becomes an escape sequence followed by octets
+            # in the ASCII range, "/" and "." among them.
+            return False
+
         return _ASCII_TEXT.encode(encoding) == _ASCII_TEXT.encode('ascii')
     except (LookupError, UnicodeError):
         return False
